@@ -136,7 +136,10 @@ class Nvl(Binary):
                     "types on right (applicable) side"
                 )
             cls.type_validation(left.data_type, right.data_type)
-            return Scalar(name="result", value=None, data_type=left.data_type, nullable=False)
+            # the result can only be null where the default itself is
+            return Scalar(
+                name="result", value=None, data_type=left.data_type, nullable=right.nullable
+            )
         if isinstance(left, DataComponent):
             if isinstance(right, Dataset):
                 raise ValueError(
@@ -149,7 +152,7 @@ class Nvl(Binary):
                 data=None,
                 data_type=left.data_type,
                 role=Role.MEASURE,
-                nullable=False,
+                nullable=right.nullable,
             )
         if isinstance(left, Dataset):
             if isinstance(right, DataComponent):
@@ -171,7 +174,12 @@ class Nvl(Binary):
                 if comp.role != Role.ATTRIBUTE
             }
             for comp in result_components.values():
-                comp.nullable = False
+                if comp.role != Role.MEASURE:
+                    continue
+                if isinstance(right, Dataset):
+                    comp.nullable = right.components[comp.name].nullable
+                else:
+                    comp.nullable = right.nullable
         return Dataset(name=dataset_name, components=result_components, data=None)
 
 
